@@ -1,98 +1,2 @@
-(* GENERATED by tools/gotrans (gotrans ownerflow <repo> <out.v>) from the Go sources - DO NOT EDIT.
-   Regenerated by ./check on every run; the committed copy only makes a fresh `make` work. *)
-From Coq Require Import String List.
-From Elys Require Import Models.OwnerFlow.
-Import ListNotations.
-Open Scope string_scope.
-
-Definition oflows : list oflow := [
-  mkOF "amm" "CreatePool" "MsgCreatePool" "Sender" CA "" (<[ORead "k.GetParams"; OCheck; OLoop false (<[ORead "k.CheckBaseAssetExist"; OCheck]>); OCheck; ORead "k.CheckBaseAssetExist"; OCheck; OCheck; OWrite WSigner "k.bankKeeper.SendCoinsFromAccountToModule"; OCheck; ORead "k.assetProfileKeeper.GetUsdcDenom"; OCheck; ORead "k.GetNextPoolId"; OCheck; OCheck; OWrite WOther "utils.CreateModuleAccount"; OCheck; OWrite WOther "pool.TVL"; OCheck; OWrite WOther "k.bankKeeper.MintCoins"; OCheck; OWrite WSigner "k.bankKeeper.SendCoinsFromModuleToAccount"; OCheck; ORead "k.assetProfileKeeper.GetEntry"; OWrite WOther "k.assetProfileKeeper.SetEntry"; OWrite WSigner "k.commitmentKeeper.CommitLiquidTokens"; OCheck; OCheck; OWrite WOther "k.bankKeeper.SetDenomMetaData"; OWrite WOther "k.storeService.OpenKVStore"; OCheck; OWrite WSigner "k.hooks.AfterPoolCreated"; OCheck; OCheck; OWrite WSigner "k.bankKeeper.SendCoins"; OCheck; OLoop false (<[OLoop false (<[ORead "k.GetDenomLiquidity"; OWrite WOther "k.storeService.OpenKVStore"; OWrite WOther "k.storeService.OpenKVStore"; OCheck; OCheck]>); OCheck]>); OCheck]>);
-  mkOF "amm" "ExitPool" "MsgExitPool" "Sender" CA "" (<[OCheck; ORead "k.GetPool"; OCheck; OCheck; OCheck; ORead "k.GetParams"; OWrite WOther "pool.ExitPool"; OCheck; OCheck; OWrite WSigner "k.commitmentKeeper.UncommitTokens"; OCheck; OWrite WSigner "k.bankKeeper.SendCoins"; OCheck; OWrite WSigner "k.bankKeeper.SendCoinsFromAccountToModule"; OCheck; OWrite WOther "k.bankKeeper.BurnCoins"; OCheck; OCheck; OWrite WOther "k.SetPool"; OCheck; OWrite WSigner "k.hooks.AfterExitPool"; OCheck; OCheck; OLoop false (<[ORead "k.GetDenomLiquidity"; OWrite WOther "k.storeService.OpenKVStore"; OWrite WOther "k.storeService.OpenKVStore"; OCheck; OCheck; OCheck]>); OCheck; OCheck]>);
-  mkOF "amm" "FeedMultipleExternalLiquidity" "MsgFeedMultipleExternalLiquidity" "Sender" CA "" (<[OSelect KSigner "o1" "k.oracleKeeper.GetPriceFeeder"; OCheck; OCheck; OLoop false (<[ORead "k.GetPool"; OCheck; ORead "k.GetExternalLiquidityRatio"; OCheck; OWrite WOther "k.SetPool"]>)]>);
-  mkOF "amm" "JoinPool" "MsgJoinPool" "Sender" CA "" (<[OCheck; OLoop false (ONil); ORead "k.GetPool"; OCheck; OCheck; OCheck; OCheck; OCheck; OCheck; OCheck; OCheck; ORead "k.GetParams"; OWrite WOther "k.GetAccountedPoolSnapshotOrSet"; OWrite WOther "pool.JoinPool"; OCheck; OWrite WSigner "k.bankKeeper.SendCoins"; OCheck; OWrite WOther "k.bankKeeper.MintCoins"; OCheck; OWrite WSigner "k.bankKeeper.SendCoinsFromModuleToAccount"; OCheck; ORead "k.assetProfileKeeper.GetEntry"; OWrite WOther "k.assetProfileKeeper.SetEntry"; OWrite WSigner "k.commitmentKeeper.CommitLiquidTokens"; OCheck; OCheck; OWrite WOther "k.SetPool"; OCheck; OLoop false (<[ORead "k.bankKeeper.GetBalance"]>); OCheck; OWrite WSigner "k.bankKeeper.SendCoins"; OCheck; OCheck; OWrite WSigner "k.hooks.AfterJoinPool"; OCheck; OCheck; OLoop false (<[ORead "k.GetDenomLiquidity"; OWrite WOther "k.storeService.OpenKVStore"; OWrite WOther "k.storeService.OpenKVStore"; OCheck; OCheck]>); OCheck; ORead "k.GetParams"; OWrite WOther "k.GetAccountedPoolSnapshotOrSet"; OWrite WOther "pool.JoinPool"; OCheck; OWrite WSigner "k.bankKeeper.SendCoins"; OCheck; OWrite WOther "k.bankKeeper.MintCoins"; OCheck; OWrite WSigner "k.bankKeeper.SendCoinsFromModuleToAccount"; OCheck; ORead "k.assetProfileKeeper.GetEntry"; OWrite WOther "k.assetProfileKeeper.SetEntry"; OWrite WSigner "k.commitmentKeeper.CommitLiquidTokens"; OCheck; OCheck; OWrite WOther "k.SetPool"; OCheck; OLoop false (<[ORead "k.bankKeeper.GetBalance"]>); OCheck; OWrite WSigner "k.bankKeeper.SendCoins"; OCheck; OCheck; OWrite WSigner "k.hooks.AfterJoinPool"; OCheck; OCheck; OLoop false (<[ORead "k.GetDenomLiquidity"; OWrite WOther "k.storeService.OpenKVStore"; OWrite WOther "k.storeService.OpenKVStore"; OCheck; OCheck]>); OCheck; OCheck]>);
-  mkOF "amm" "SwapByDenom" "MsgSwapByDenom" "Sender" CC "" (<[OCheck; ORead "k.assetProfileKeeper.GetUsdcDenom"; OCheck; ORead "k.tierKeeper.GetMembershipTier"; OCheck; ORead "k.CalcInRouteByDenom"; OCheck; ORead "k.CalcOutRouteByDenom"; OCheck; ORead "k.CalcInRouteSpotPrice"; ORead "k.CalcOutRouteSpotPrice"; OCheck; OCheck; OCheck; OCheck; OLoop false (ONil); OInner "amm.SwapExactAmountIn" "Sender" (SrcSigner) (<[OCheck; OCheck; OCheck; OCheck; OCheck; OCheck; OCheck; OLoop false (<[ORead "k.GetPool"; OCheck]>); OCheck; ORead "k.tierKeeper.GetMembershipTier"; OLoop false (<[ORead "k.GetPool"; OCheck; OCheck; OLoop false (ONil); ORead "k.GetParams"; OWrite WSigner "k.GetPoolSnapshotOrSet"; OLoop false (<[ORead "k.accountedPoolKeeper.GetAccountedBalance"]>); OWrite WSigner "pool.SwapOutAmtGivenIn"; OCheck; OCheck; OCheck; OWrite WSigner "k.bankKeeper.SendCoins"; OCheck; OWrite WSigner "k.AddToPoolBalanceAndUpdateLiquidity"; OCheck; OWrite WSigner "k.bankKeeper.SendCoins"; OCheck; OWrite WSigner "k.RemoveFromPoolBalanceAndUpdateLiquidity"; OCheck; OCheck; OWrite WSigner "k.bankKeeper.SendCoins"; OCheck; OWrite WSigner "k.RemoveFromPoolBalanceAndUpdateLiquidity"; OCheck; OWrite WSigner "k.OnCollectFee"; OCheck; OCheck; ORead "k.GetParams"; OCheck; OWrite WSigner "k.bankKeeper.SendCoins"; OCheck; OWrite WSigner "k.RemoveFromPoolBalanceAndUpdateLiquidity"; OCheck; OWrite WSigner "k.TrackWeightBreakingSlippage"; OCheck; ORead "k.bankKeeper.GetBalance"; OCheck; OWrite WSigner "k.bankKeeper.SendCoins"; OCheck; OWrite WSigner "k.SetPool"; OCheck; OWrite WSigner "k.hooks.AfterSwap"; OCheck; OCheck; OWrite WSigner "k.GetLastSlippageTrack"; OWrite WSigner "k.SetSlippageTrack"; ORead "k.oracleKeeper.GetAssetPriceFromDenom"; OWrite WSigner "k.AddWeightAndSlippageFee"; OCheck]>); OCheck; OWrite WOther "k.GetLastSwapRequestIndex"; OWrite WOther "ctx.TransientStore"; OWrite WOther "k.SetLastSwapRequestIndex"]>); OCheck; OCheck; OCheck; OLoop false (ONil); OInner "amm.SwapExactAmountOut" "Sender" (SrcSigner) (<[OCheck; OCheck; OCheck; OLoop false (ONil); OCheck; OCheck; OCheck; OCheck; OWrite WOther "k.getElysRoutedMultihopTotalSwapFee"; OCheck; OLoop false (<[ORead "k.GetPool"; OCheck; OWrite WOther "k.GetAccountedPoolSnapshotOrSet"; ORead "pool.CalcInAmtGivenOut"; OCheck]>); OLoop false (<[ORead "k.GetPool"; OCheck; OWrite WOther "k.GetAccountedPoolSnapshotOrSet"; ORead "pool.CalcInAmtGivenOut"; OCheck]>); OCheck; OCheck; ORead "k.tierKeeper.GetMembershipTier"; OLoop false (<[ORead "k.GetPool"; OCheck; OCheck; OLoop false (ONil); OCheck; ORead "k.GetParams"; OWrite WOther "k.GetAccountedPoolSnapshotOrSet"; OWrite WOther "pool.SwapInAmtGivenOut"; OCheck; OCheck; OCheck; OWrite WSigner "k.bankKeeper.SendCoins"; OCheck; OWrite WOther "k.AddToPoolBalanceAndUpdateLiquidity"; OCheck; OWrite WSigner "k.bankKeeper.SendCoins"; OCheck; OWrite WOther "k.RemoveFromPoolBalanceAndUpdateLiquidity"; OCheck; OCheck; OWrite WOther "k.bankKeeper.SendCoins"; OCheck; OWrite WOther "k.RemoveFromPoolBalanceAndUpdateLiquidity"; OCheck; OWrite WOther "k.OnCollectFee"; OCheck; OCheck; ORead "k.GetParams"; OCheck; OWrite WOther "k.bankKeeper.SendCoins"; OCheck; OWrite WOther "k.RemoveFromPoolBalanceAndUpdateLiquidity"; OCheck; OWrite WOther "k.TrackWeightBreakingSlippage"; OCheck; ORead "k.bankKeeper.GetBalance"; OCheck; OWrite WSigner "k.bankKeeper.SendCoins"; OCheck; OWrite WOther "k.SetPool"; OCheck; OWrite WSigner "k.hooks.AfterSwap"; OCheck; OCheck; OWrite WOther "k.GetLastSlippageTrack"; OWrite WOther "k.SetSlippageTrack"; OCheck]>); OCheck; OWrite WOther "k.GetLastSwapRequestIndex"; OWrite WOther "ctx.TransientStore"; OWrite WOther "k.SetLastSwapRequestIndex"]>); OCheck]>);
-  mkOF "amm" "SwapExactAmountIn" "MsgSwapExactAmountIn" "Sender" CA "" (<[OCheck; OCheck; OCheck; OCheck; OCheck; OCheck; OCheck; OLoop false (<[ORead "k.GetPool"; OCheck]>); OCheck; ORead "k.tierKeeper.GetMembershipTier"; OLoop false (<[ORead "k.GetPool"; OCheck; OCheck; OLoop false (ONil); ORead "k.GetParams"; OWrite WOther "k.GetAccountedPoolSnapshotOrSet"; OWrite WOther "pool.SwapOutAmtGivenIn"; OCheck; OCheck; OCheck; OWrite WSigner "k.bankKeeper.SendCoins"; OCheck; OCheck; OWrite WOther "k.SetPool"; OWrite WOther "k.RecordTotalLiquidityIncrease"; OCheck; OWrite WSigner "k.bankKeeper.SendCoins"; OCheck; OCheck; OWrite WOther "k.SetPool"; OWrite WOther "k.RecordTotalLiquidityDecrease"; OCheck; OCheck; OWrite WOther "k.bankKeeper.SendCoins"; OCheck; OCheck; OWrite WOther "k.SetPool"; OWrite WOther "k.RecordTotalLiquidityDecrease"; OCheck; ORead "k.GetParams"; OWrite WOther "k.bankKeeper.SendCoins"; OCheck; OWrite WOther "k.SwapFeesToRevenueToken"; OWrite WOther "write"; OCheck; OCheck; ORead "k.GetParams"; OCheck; OWrite WOther "k.bankKeeper.SendCoins"; OCheck; OCheck; OWrite WOther "k.SetPool"; OWrite WOther "k.RecordTotalLiquidityDecrease"; OCheck; ORead "k.oracleKeeper.GetAssetPriceFromDenom"; OWrite WOther "k.AddWeightAndSlippageFee"; OCheck; ORead "k.bankKeeper.GetBalance"; OCheck; OWrite WSigner "k.bankKeeper.SendCoins"; OCheck; OWrite WOther "k.SetPool"; OCheck; OWrite WSigner "k.hooks.AfterSwap"; OCheck; OCheck; OWrite WOther "k.GetLastSlippageTrack"; OWrite WOther "k.storeService.OpenKVStore"; ORead "k.oracleKeeper.GetAssetPriceFromDenom"; OWrite WOther "k.storeService.OpenKVStore"; OCheck]>); OCheck; OWrite WOther "k.GetLastSwapRequestIndex"; OWrite WOther "ctx.TransientStore"; OWrite WOther "k.SetLastSwapRequestIndex"]>);
-  mkOF "amm" "SwapExactAmountOut" "MsgSwapExactAmountOut" "Sender" CA "" (<[OCheck; OCheck; OCheck; OLoop false (ONil); OCheck; OCheck; OCheck; OCheck; OLoop false (<[ORead "k.GetPool"; OCheck]>); OCheck; OLoop false (<[ORead "k.GetPool"; OCheck; OWrite WOther "k.GetAccountedPoolSnapshotOrSet"; ORead "pool.CalcInAmtGivenOut"; OCheck]>); OLoop false (<[ORead "k.GetPool"; OCheck; OWrite WOther "k.GetAccountedPoolSnapshotOrSet"; ORead "pool.CalcInAmtGivenOut"; OCheck]>); OCheck; OCheck; ORead "k.tierKeeper.GetMembershipTier"; OLoop false (<[ORead "k.GetPool"; OCheck; OCheck; OLoop false (ONil); OCheck; ORead "k.GetParams"; OWrite WOther "k.GetAccountedPoolSnapshotOrSet"; OWrite WOther "pool.SwapInAmtGivenOut"; OCheck; OCheck; OCheck; OWrite WSigner "k.bankKeeper.SendCoins"; OCheck; OCheck; OWrite WOther "k.SetPool"; OWrite WOther "k.RecordTotalLiquidityIncrease"; OCheck; OWrite WSigner "k.bankKeeper.SendCoins"; OCheck; OCheck; OWrite WOther "k.SetPool"; OWrite WOther "k.RecordTotalLiquidityDecrease"; OCheck; OCheck; OWrite WOther "k.bankKeeper.SendCoins"; OCheck; OCheck; OWrite WOther "k.SetPool"; OWrite WOther "k.RecordTotalLiquidityDecrease"; OCheck; ORead "k.GetParams"; OWrite WOther "k.bankKeeper.SendCoins"; OCheck; OWrite WOther "k.SwapFeesToRevenueToken"; OWrite WOther "write"; OCheck; OCheck; ORead "k.GetParams"; OCheck; OWrite WOther "k.bankKeeper.SendCoins"; OCheck; OCheck; OWrite WOther "k.SetPool"; OWrite WOther "k.RecordTotalLiquidityDecrease"; OCheck; ORead "k.oracleKeeper.GetAssetPriceFromDenom"; OWrite WOther "k.AddWeightAndSlippageFee"; OCheck; ORead "k.bankKeeper.GetBalance"; OCheck; OWrite WSigner "k.bankKeeper.SendCoins"; OCheck; OWrite WOther "k.SetPool"; OCheck; OWrite WSigner "k.hooks.AfterSwap"; OCheck; OCheck; OWrite WOther "k.GetLastSlippageTrack"; OWrite WOther "k.storeService.OpenKVStore"; OCheck]>); OCheck; OWrite WOther "k.GetLastSwapRequestIndex"; OWrite WOther "ctx.TransientStore"; OWrite WOther "k.SetLastSwapRequestIndex"]>);
-  mkOF "amm" "UpdateParams" "MsgUpdateParams" "Authority" CE "" (<[OCheck; OWrite WOther "k.storeService.OpenKVStore"]>);
-  mkOF "amm" "UpdatePoolParams" "MsgUpdatePoolParams" "Authority" CE "" (<[OCheck; ORead "k.GetPool"; OCheck; ORead "k.assetProfileKeeper.GetUsdcDenom"; OCheck; OWrite WOther "k.storeService.OpenKVStore"; OCheck]>);
-  mkOF "assetprofile" "AddEntry" "MsgAddEntry" "Creator" CD "" (<[ORead "k.GetEntry"; OCheck; OCheck; ORead "k.transferKeeper.GetDenomTrace"; OCheck; OCheck; OWrite WOther "k.storeService.OpenKVStore"]>);
-  mkOF "assetprofile" "DeleteEntry" "MsgDeleteEntry" "Authority" CE "" (<[OCheck; ORead "k.GetEntry"; OCheck; OCheck; OWrite WOther "k.storeService.OpenKVStore"]>);
-  mkOF "assetprofile" "UpdateEntry" "MsgUpdateEntry" "Authority" CE "" (<[OCheck; ORead "k.GetEntry"; OCheck; OCheck; OCheck; ORead "k.transferKeeper.GetDenomTrace"; OCheck; OCheck; OWrite WOther "k.storeService.OpenKVStore"]>);
-  mkOF "burner" "UpdateParams" "MsgUpdateParams" "Authority" CE "" (<[OCheck; OCheck; ORead "k.GetParams"; OWrite WOther "k.storeService.OpenKVStore"]>);
-  mkOF "commitment" "CancelVest" "MsgCancelVest" "Creator" CA "" (<[OCheck; ORead "k.GetVestingInfo"; OCheck; OSelect KSigner "o1" "k.GetCommitments"; OLoop false (<[OCheck]>); OLoop false (<[OCheck]>); OCheck; ORead "k.HasCommitments"; ORead "k.GetParams"; OWrite WOther "k.SetParams"; OWrite WOther "k.storeService.OpenKVStore"]>);
-  mkOF "commitment" "ClaimVesting" "MsgClaimVesting" "Sender" CA "" (<[OSelect KSigner "o1" "k.GetCommitments"; OLoop false (<[OWrite WObj "vesting.VestedSoFar"]>); OCheck; OCheck; OWrite WObj "k.bankKeeper.MintCoins"; OCheck; OWrite WSigner "k.bankKeeper.SendCoinsFromModuleToAccount"; OCheck; ORead "k.HasCommitments"; ORead "k.GetParams"; OWrite WOther "k.SetParams"; OWrite WOther "k.storeService.OpenKVStore"]>);
-  mkOF "commitment" "CommitClaimedRewards" "MsgCommitClaimedRewards" "Creator" CA "" (<[ORead "k.assetProfileKeeper.GetEntry"; OCheck; OCheck; ORead "k.GetParams"; OWrite WOther "k.storeService.OpenKVStore"; OSelect KSigner "o1" "k.GetCommitments"; OCheck; OCheck; OWrite WSigner "k.hooks.BeforeEdenCommitChange"; OCheck; OWrite WSigner "k.hooks.BeforeEdenInitialCommit"; OCheck; OCheck; OCheck; OWrite WSigner "k.hooks.BeforeEdenBCommitChange"; OCheck; OWrite WSigner "k.hooks.BeforeEdenBInitialCommit"; OCheck; OCheck; ORead "k.HasCommitments"; ORead "k.GetParams"; OWrite WOther "k.SetParams"; OWrite WOther "k.storeService.OpenKVStore"; OCheck; OWrite WSigner "k.hooks.CommitmentChanged"; OCheck]>);
-  mkOF "commitment" "Stake" "MsgStake" "Creator" CC "" (<[OCheck; OCheck; OCheck; OCheck; OCheck; ORead "k.accountKeeper.GetAccount"; OCheck; ORead "k.bankKeeper.SpendableCoins"; OCheck; OWrite WSigner "stakingMsgServer.Delegate"; OCheck; OCheck; OCheck; OInner "commitment.CommitClaimedRewards" "Creator" (SrcSigner) (<[ORead "k.assetProfileKeeper.GetEntry"; OCheck; OCheck; ORead "k.GetParams"; OWrite WOther "k.storeService.OpenKVStore"; OSelect KSigner "o1" "k.GetCommitments"; OCheck; OCheck; OWrite WSigner "k.hooks.BeforeEdenCommitChange"; OCheck; OWrite WSigner "k.hooks.BeforeEdenInitialCommit"; OCheck; OCheck; OCheck; OWrite WSigner "k.hooks.BeforeEdenBCommitChange"; OCheck; OWrite WSigner "k.hooks.BeforeEdenBInitialCommit"; OCheck; OCheck; ORead "k.HasCommitments"; ORead "k.GetParams"; OWrite WOther "k.SetParams"; OWrite WOther "k.storeService.OpenKVStore"; OCheck; OWrite WSigner "k.hooks.CommitmentChanged"; OCheck]>); OCheck; OCheck]>);
-  mkOF "commitment" "UncommitTokens" "MsgUncommitTokens" "Creator" CA "" (<[OCheck; OCheck; ORead "k.assetProfileKeeper.GetEntry"; OCheck; OCheck; OSelect KSigner "o1" "k.GetCommitments"; OCheck; OWrite WSigner "k.hooks.BeforeEdenCommitChange"; OCheck; OCheck; OWrite WSigner "k.hooks.BeforeEdenBCommitChange"; OCheck; OCheck; ORead "k.HasCommitments"; ORead "k.GetParams"; OWrite WOther "k.SetParams"; OWrite WOther "k.storeService.OpenKVStore"; ORead "k.HasCommitments"; ORead "k.GetParams"; OWrite WOther "k.SetParams"; OWrite WOther "k.storeService.OpenKVStore"; OCheck; OWrite WSigner "k.hooks.CommitmentChanged"; OCheck; OCheck; OWrite WSigner "k.bankKeeper.SendCoinsFromModuleToAccount"; OCheck; ORead "k.GetParams"; OWrite WOther "k.storeService.OpenKVStore"; OCheck; OCheck; OWrite WSigner "k.hooks.EdenUncommitted"; OCheck; OCheck]>);
-  mkOF "commitment" "Unstake" "MsgUnstake" "Creator" CC "" (<[OCheck; OCheck; OCheck; OCheck; OCheck; OWrite WSigner "msgServer.Undelegate"; OCheck; OCheck; OCheck; OInner "commitment.UncommitTokens" "Creator" (SrcSigner) (<[OCheck; OCheck; ORead "k.assetProfileKeeper.GetEntry"; OCheck; OCheck; OSelect KSigner "o1" "k.GetCommitments"; OCheck; OWrite WSigner "k.hooks.BeforeEdenCommitChange"; OCheck; OCheck; OWrite WSigner "k.hooks.BeforeEdenBCommitChange"; OCheck; OCheck; ORead "k.HasCommitments"; ORead "k.GetParams"; OWrite WOther "k.SetParams"; OWrite WOther "k.storeService.OpenKVStore"; ORead "k.HasCommitments"; ORead "k.GetParams"; OWrite WOther "k.SetParams"; OWrite WOther "k.storeService.OpenKVStore"; OCheck; OWrite WSigner "k.hooks.CommitmentChanged"; OCheck; OCheck; OWrite WSigner "k.bankKeeper.SendCoinsFromModuleToAccount"; OCheck; ORead "k.GetParams"; OWrite WOther "k.storeService.OpenKVStore"; OCheck; OCheck; OWrite WSigner "k.hooks.EdenUncommitted"; OCheck; OCheck]>); OCheck; OCheck]>);
-  mkOF "commitment" "UpdateEnableVestNow" "MsgUpdateEnableVestNow" "Authority" CE "" (<[OCheck; ORead "k.GetParams"; OWrite WOther "k.storeService.OpenKVStore"]>);
-  mkOF "commitment" "UpdateVestingInfo" "MsgUpdateVestingInfo" "Authority" CE "" (<[OCheck; ORead "k.GetParams"; ORead "k.GetVestingInfo"; OCheck; OWrite WOther "k.storeService.OpenKVStore"]>);
-  mkOF "commitment" "Vest" "MsgVest" "Creator" CA "" (<[ORead "k.GetVestingInfo"; OCheck; OSelect KSigner "o1" "k.GetCommitments"; OCheck; OSelect KSigner "o2" "k.GetCommitments"; OCheck; OCheck; ORead "k.HasCommitments"; ORead "k.GetParams"; OWrite WOther "k.SetParams"; OWrite WOther "k.storeService.OpenKVStore"; OCheck]>);
-  mkOF "commitment" "VestLiquid" "MsgVestLiquid" "Creator" CA "" (<[ORead "k.assetProfileKeeper.GetEntry"; OCheck; OCheck; OWrite WSigner "k.bankKeeper.SendCoinsFromAccountToModule"; OCheck; OSelect KSigner "o1" "k.GetCommitments"; ORead "k.HasCommitments"; ORead "k.GetParams"; OWrite WOther "k.SetParams"; OWrite WOther "k.storeService.OpenKVStore"; OCheck; ORead "k.GetVestingInfo"; OCheck; OSelect KSigner "o2" "k.GetCommitments"; OCheck; OSelect KSigner "o3" "k.GetCommitments"; OCheck; OCheck; ORead "k.HasCommitments"; ORead "k.GetParams"; OWrite WOther "k.SetParams"; OWrite WOther "k.storeService.OpenKVStore"; OCheck]>);
-  mkOF "commitment" "VestNow" "MsgVestNow" "Creator" CA "" (<[ORead "k.GetParams"; OCheck; ORead "k.GetVestingInfo"; OCheck; OSelect KSigner "o1" "k.GetCommitments"; OCheck; OCheck; OCheck; OCheck; OWrite WOther "k.bankKeeper.MintCoins"; OCheck; OWrite WSigner "k.bankKeeper.SendCoinsFromModuleToAccount"; OCheck; ORead "k.HasCommitments"; ORead "k.GetParams"; OWrite WOther "k.SetParams"; OWrite WOther "k.storeService.OpenKVStore"]>);
-  mkOF "estaking" "UpdateParams" "MsgUpdateParams" "Authority" CE "" (<[OCheck; OWrite WOther "k.storeService.OpenKVStore"]>);
-  mkOF "estaking" "WithdrawAllRewards" "MsgWithdrawAllRewards" "DelegatorAddress" CA "" (<[OLoop false (<[OCheck; OWrite WSigner "k.distrKeeper.WithdrawDelegationRewards"; OCheck]>); ORead "k.IterateDelegations"; OCheck; OCheck]>);
-  mkOF "estaking" "WithdrawElysStakingRewards" "MsgWithdrawElysStakingRewards" "DelegatorAddress" CA "" (<[OLoop false (<[OCheck; OWrite WSigner "k.distrKeeper.WithdrawDelegationRewards"; OCheck]>); ORead "k.Keeper.Keeper.IterateDelegations"; OCheck; OCheck; OCheck]>);
-  mkOF "estaking" "WithdrawReward" "MsgWithdrawReward" "DelegatorAddress" CA "" (<[OCheck; OWrite WSigner "k.distrKeeper.WithdrawDelegationRewards"; OCheck]>);
-  mkOF "leveragelp" "AddPool" "MsgAddPool" "Authority" CE "" (<[OCheck; ORead "k.amm.GetPool"; OCheck; OCheck; ORead "k.GetPool"; OCheck; ORead "k.GetMaxLeverageParam"; OWrite WOther "k.storeService.OpenKVStore"; OCheck; OWrite WOther "k.hooks.AfterEnablingPool"; OCheck]>);
-  mkOF "leveragelp" "ClaimRewards" "MsgClaimRewards" "Sender" CA "" (<[OLoop false (<[OSelect KSigner "o1" "k.GetPosition"; OCheck; OWrite WSigner "k.masterchefKeeper.ClaimRewards"; OCheck]>)]>);
-  mkOF "leveragelp" "Close" "MsgClose" "Creator" CA "" (<[OSelect KSigner "o1" "k.GetPosition"; OCheck; ORead "k.GetPool"; OCheck; ORead "k.GetPositionHealth"; OCheck; ORead "k.GetSafetyFactor"; OCheck; OWrite WObj "k.amm.ExitPool"; OCheck; OWrite WObj "k.stableKeeper.UpdateInterestAndGetDebt"; OCheck; ORead "k.bankKeeper.GetBalance"; OCheck; OWrite WObj "k.stableKeeper.Repay"; OCheck; OCheck; OCheck; OWrite WObj "k.bankKeeper.SendCoins"; OCheck; ORead "k.CalculatePoolHealth"; OWrite WOther "k.storeService.OpenKVStore"; ORead "k.amm.GetPool"; OCheck; OCheck; OWrite WObj "k.masterchefKeeper.ClaimRewards"; OCheck; OWrite WOther "k.storeService.OpenKVStore"; OCheck; OWrite WOther "k.GetOpenPositionCount"; OWrite WOther "k.SetOpenPositionCount"; OCheck; ORead "k.GetPositionHealth"; OWrite WObj "k.stableKeeper.UpdateInterestAndGetDebt"; OWrite WOther "k.storeService.OpenKVStore"; ORead "k.GetPositionCount"; OWrite WOther "k.GetOpenPositionCount"; OWrite WOther "k.SetPositionCount"; OWrite WOther "k.SetOpenPositionCount"; OCheck; OCheck; ORead "k.GetAmmPool"; OCheck; OWrite WSigner "k.hooks.AfterLeverageLpPositionClose"; OCheck]>);
-  mkOF "leveragelp" "ClosePositions" "MsgClosePositions" "Creator" CU "loop entered with an unchecked selection: o1@x/leveragelp/keeper/msg_server_close_positions.go:20 k.GetPosition | loop entered with an unchecked selection: o2@x/leveragelp/keeper/msg_server_close_positions.go:57 k.GetPosition" (<[OLoop false (<[OSelect KId "o1" "k.GetPosition at x/leveragelp/keeper/msg_server_close_positions.go:20"; OCheck; ORead "k.GetPool"; OCheck; ORead "k.GetAmmPool"; OCheck; OLoop false (ONil); ORead "k.GetPositionHealth"; OCheck; OWrite WOther "k.storeService.OpenKVStore"; ORead "k.GetPositionCount"; OWrite WOther "k.GetOpenPositionCount"; OWrite WOther "k.SetPositionCount"; OWrite WOther "k.SetOpenPositionCount"; ORead "k.GetParams"; OWrite WObj "k.stableKeeper.UpdateInterestAndGetDebt"; OCheck; OCheck; OWrite WObj "k.amm.ExitPool"; OCheck; OWrite WObj "k.stableKeeper.UpdateInterestAndGetDebt"; OCheck; ORead "k.bankKeeper.GetBalance"; OCheck; OWrite WObj "k.stableKeeper.Repay"; OCheck; OCheck; OCheck; OWrite WObj "k.bankKeeper.SendCoins"; OCheck; ORead "k.CalculatePoolHealth"; OWrite WOther "k.storeService.OpenKVStore"; ORead "k.amm.GetPool"; OCheck; OCheck; OWrite WObj "k.masterchefKeeper.ClaimRewards"; OCheck; OWrite WOther "k.storeService.OpenKVStore"; OCheck; OWrite WOther "k.GetOpenPositionCount"; OWrite WOther "k.SetOpenPositionCount"; OCheck; ORead "k.GetPositionHealth"; OWrite WObj "k.stableKeeper.UpdateInterestAndGetDebt"; OWrite WOther "k.storeService.OpenKVStore"; ORead "k.GetPositionCount"; OWrite WOther "k.GetOpenPositionCount"; OWrite WOther "k.SetPositionCount"; OWrite WOther "k.SetOpenPositionCount"; OCheck; OWrite WOther "write"; OCheck; ORead "k.amm.GetPool"; OCheck; OWrite WObj "k.hooks.AfterLeverageLpPositionClose"; OCheck]>); OLoop false (<[OSelect KId "o2" "k.GetPosition at x/leveragelp/keeper/msg_server_close_positions.go:57"; OCheck; ORead "k.GetPool"; OCheck; ORead "k.GetAmmPool"; OCheck; OLoop false (ONil); ORead "k.GetPositionHealth"; OCheck; OWrite WOther "k.storeService.OpenKVStore"; ORead "k.GetPositionCount"; OWrite WOther "k.GetOpenPositionCount"; OWrite WOther "k.SetPositionCount"; OWrite WOther "k.SetOpenPositionCount"; OWrite WObj "ammPool.LpTokenPrice"; OCheck; OCheck; OCheck; OWrite WObj "k.amm.ExitPool"; OCheck; OWrite WObj "k.stableKeeper.UpdateInterestAndGetDebt"; OCheck; ORead "k.bankKeeper.GetBalance"; OCheck; OWrite WObj "k.stableKeeper.Repay"; OCheck; OCheck; OCheck; OWrite WObj "k.bankKeeper.SendCoins"; OCheck; ORead "k.CalculatePoolHealth"; OWrite WOther "k.storeService.OpenKVStore"; ORead "k.amm.GetPool"; OCheck; OCheck; OWrite WObj "k.masterchefKeeper.ClaimRewards"; OCheck; OWrite WOther "k.storeService.OpenKVStore"; OCheck; OWrite WOther "k.GetOpenPositionCount"; OWrite WOther "k.SetOpenPositionCount"; OCheck; ORead "k.GetPositionHealth"; OWrite WObj "k.stableKeeper.UpdateInterestAndGetDebt"; OWrite WOther "k.storeService.OpenKVStore"; ORead "k.GetPositionCount"; OWrite WOther "k.GetOpenPositionCount"; OWrite WOther "k.SetPositionCount"; OWrite WOther "k.SetOpenPositionCount"; OCheck; OWrite WOther "write"; OCheck; ORead "k.amm.GetPool"; OCheck; OWrite WObj "k.hooks.AfterLeverageLpPositionClose"; OCheck]>)]>);
-  mkOF "leveragelp" "Dewhitelist" "MsgDewhitelist" "Authority" CE "" (<[OCheck; OWrite WOther "k.storeService.OpenKVStore"]>);
-  mkOF "leveragelp" "Open" "MsgOpen" "Creator" CA "" (<[ORead "k.IsWhitelistingEnabled"; ORead "k.CheckIfWhitelisted"; OCheck; OCheck; ORead "k.stableKeeper.GetParams"; OWrite WOther "k.stableKeeper.GetDepositDenom"; ORead "k.bankKeeper.GetBalance"; ORead "k.GetPool"; OCheck; ORead "k.amm.GetPool"; OCheck; OCheck; OSelect KSigner "o1" "k.GetPositionsForAddress"; OCheck; OLoop false (<[OCheck]>); OCheck; OCheck; OCheck; ORead "k.GetMaxLeverageParam"; ORead "k.GetPool"; OCheck; ORead "k.assetProfileKeeper.GetUsdcDenom"; OCheck; OCheck; OWrite WObj "k.bankKeeper.SendCoins"; OCheck; OCheck; OWrite WObj "k.stableKeeper.Borrow"; OCheck; OWrite WObj "k.amm.JoinPoolNoSwap"; OCheck; ORead "k.CalculatePoolHealth"; OWrite WOther "k.storeService.OpenKVStore"; ORead "k.GetPositionHealth"; OCheck; ORead "k.GetSafetyFactor"; OCheck; OWrite WOther "k.storeService.OpenKVStore"; ORead "k.GetPositionCount"; OWrite WOther "k.GetOpenPositionCount"; OWrite WOther "k.SetPositionCount"; OWrite WOther "k.SetOpenPositionCount"; OCheck; OCheck; ORead "k.amm.GetPool"; OCheck; OWrite WSigner "k.hooks.AfterLeverageLpPositionOpenConsolidate"; OCheck; OCheck; ORead "k.CheckPoolHealth"; OCheck; OWrite WOther "k.CheckMaxOpenPositions"; OCheck; OCheck; ORead "k.GetPositionCount"; OWrite WOther "k.storeService.OpenKVStore"; OWrite WOther "k.GetOpenPositionCount"; OWrite WOther "k.SetOpenPositionCount"; ORead "k.GetMaxLeverageParam"; ORead "k.GetPool"; OCheck; ORead "k.assetProfileKeeper.GetUsdcDenom"; OCheck; OCheck; OWrite WSigner "k.bankKeeper.SendCoins"; OCheck; OCheck; OWrite WSigner "k.stableKeeper.Borrow"; OCheck; OWrite WSigner "k.amm.JoinPoolNoSwap"; OCheck; OWrite WOther "k.UpdatePoolHealth"; ORead "k.GetPositionHealth"; OCheck; ORead "k.GetSafetyFactor"; OCheck; OWrite WOther "k.storeService.OpenKVStore"; ORead "k.GetPositionCount"; OWrite WOther "k.GetOpenPositionCount"; OWrite WOther "k.SetPositionCount"; OWrite WOther "k.SetOpenPositionCount"; OCheck; ORead "k.CheckPoolHealth"; OCheck; OCheck; ORead "k.amm.GetPool"; OCheck; OWrite WSigner "k.hooks.AfterLeverageLpPositionOpen"; OCheck]>);
-  mkOF "leveragelp" "RemovePool" "MsgRemovePool" "Authority" CE "" (<[OCheck; ORead "k.amm.GetPool"; OCheck; ORead "k.GetPool"; OCheck; OCheck; OWrite WOther "k.storeService.OpenKVStore"; OCheck; OWrite WOther "k.hooks.AfterDisablingPool"; OCheck]>);
-  mkOF "leveragelp" "UpdateParams" "MsgUpdateParams" "Authority" CE "" (<[OCheck; OCheck; OWrite WOther "k.storeService.OpenKVStore"; OCheck; OCheck]>);
-  mkOF "leveragelp" "UpdateStopLoss" "MsgUpdateStopLoss" "Creator" CA "" (<[OSelect KSigner "o1" "k.GetPositionWithId"; OCheck; ORead "k.GetPool"; OCheck; OWrite WOther "k.storeService.OpenKVStore"; ORead "k.GetPositionCount"; OWrite WOther "k.GetOpenPositionCount"; OWrite WOther "k.SetPositionCount"; OWrite WOther "k.SetOpenPositionCount"]>);
-  mkOF "leveragelp" "Whitelist" "MsgWhitelist" "Authority" CE "" (<[OCheck; OWrite WOther "k.storeService.OpenKVStore"]>);
-  mkOF "masterchef" "AddExternalIncentive" "MsgAddExternalIncentive" "Sender" CD "" (<[OCheck; OCheck; OCheck; ORead "k.GetParams"; OLoop false (<[OCheck; OCheck]>); OCheck; OWrite WSigner "k.bankKeeper.SendCoinsFromAccountToModule"; OCheck; ORead "k.GetExternalIncentiveIndex"; OWrite WOther "k.storeService.OpenKVStore"; OWrite WOther "k.storeService.OpenKVStore"]>);
-  mkOF "masterchef" "AddExternalRewardDenom" "MsgAddExternalRewardDenom" "Authority" CE "" (<[OCheck; ORead "k.GetParams"; OLoop false (<[OCheck]>); OWrite WOther "k.storeService.OpenKVStore"]>);
-  mkOF "masterchef" "ClaimRewards" "MsgClaimRewards" "Sender" CA "" (<[ORead "k.GetAllPoolInfos"; OLoop false (ONil); OLoop false (<[ORead "k.GetRewardDenoms"; OLoop false (<[ORead "k.GetPoolRewardInfo"; OSelect KSigner "o1" "k.GetUserRewardInfo"; ORead "k.GetPoolBalance"; OWrite WOther "k.storeService.OpenKVStore"; ORead "k.GetPoolRewardInfo"; OSelect KSigner "o2" "k.GetUserRewardInfo"; ORead "k.GetPoolBalance"; OWrite WOther "k.storeService.OpenKVStore"]>); ORead "k.GetRewardDenoms"; OLoop false (<[OSelect KSigner "o3" "k.GetUserRewardInfo"; OWrite WOther "k.storeService.OpenKVStore"; OWrite WOther "k.storeService.OpenKVStore"]>)]>); OWrite WSigner "k.commitmentKeeper.SendCoinsFromModuleToAccount"; OCheck; OCheck]>);
-  mkOF "masterchef" "TogglePoolEdenRewards" "MsgTogglePoolEdenRewards" "Authority" CE "" (<[OCheck; ORead "k.GetPoolInfo"; OCheck; OWrite WOther "k.storeService.OpenKVStore"]>);
-  mkOF "masterchef" "UpdateParams" "MsgUpdateParams" "Authority" CE "" (<[OCheck; OCheck; OWrite WOther "k.storeService.OpenKVStore"]>);
-  mkOF "masterchef" "UpdatePoolMultipliers" "MsgUpdatePoolMultipliers" "Authority" CE "" (<[OCheck; OCheck; OLoop false (<[ORead "k.GetPoolInfo"; OWrite WOther "k.storeService.OpenKVStore"]>)]>);
-  mkOF "oracle" "AddPriceFeeders" "MsgAddPriceFeeders" "Authority" CE "" (<[OCheck; OLoop false (<[OWrite WOther "k.storeService.OpenKVStore"]>)]>);
-  mkOF "oracle" "CreateAssetInfo" "MsgCreateAssetInfo" "Creator" CD "" (<[ORead "k.GetAssetInfo"; OCheck; OWrite WOther "k.storeService.OpenKVStore"]>);
-  mkOF "oracle" "DeletePriceFeeder" "MsgDeletePriceFeeder" "Feeder" CA "" (<[OSelect KSigner "o1" "k.Keeper.GetPriceFeeder"; OCheck; OWrite WOther "k.storeService.OpenKVStore"]>);
-  mkOF "oracle" "FeedMultiplePrices" "MsgFeedMultiplePrices" "Creator" CA "" (<[OSelect KSigner "o1" "k.Keeper.GetPriceFeeder"; OCheck; OCheck; OLoop false (<[OWrite WOther "k.storeService.OpenKVStore"]>)]>);
-  mkOF "oracle" "FeedPrice" "MsgFeedPrice" "Provider" CA "" (<[OSelect KSigner "o1" "k.Keeper.GetPriceFeeder"; OCheck; OCheck; OWrite WOther "k.storeService.OpenKVStore"]>);
-  mkOF "oracle" "RemoveAssetInfo" "MsgRemoveAssetInfo" "Authority" CE "" (<[OCheck; OWrite WOther "k.storeService.OpenKVStore"]>);
-  mkOF "oracle" "RemovePriceFeeders" "MsgRemovePriceFeeders" "Authority" CE "" (<[OCheck; OLoop false (<[OWrite WOther "k.storeService.OpenKVStore"]>)]>);
-  mkOF "oracle" "SetPriceFeeder" "MsgSetPriceFeeder" "Feeder" CA "" (<[OSelect KSigner "o1" "k.Keeper.GetPriceFeeder"; OCheck; OWrite WOther "k.storeService.OpenKVStore"]>);
-  mkOF "oracle" "UpdateParams" "MsgUpdateParams" "Authority" CE "" (<[OCheck; OWrite WOther "k.storeService.OpenKVStore"]>);
-  mkOF "parameter" "UpdateMaxVotingPower" "MsgUpdateMaxVotingPower" "Creator" CE "" (<[OCheck; ORead "k.GetParams"; OWrite WOther "k.storeService.OpenKVStore"]>);
-  mkOF "parameter" "UpdateMinCommission" "MsgUpdateMinCommission" "Creator" CE "" (<[OCheck; ORead "k.GetParams"; OWrite WOther "k.storeService.OpenKVStore"]>);
-  mkOF "parameter" "UpdateMinSelfDelegation" "MsgUpdateMinSelfDelegation" "Creator" CE "" (<[OCheck; ORead "k.GetParams"; OWrite WOther "k.storeService.OpenKVStore"]>);
-  mkOF "parameter" "UpdateRewardsDataLifetime" "MsgUpdateRewardsDataLifetime" "Creator" CE "" (<[OCheck; ORead "k.GetParams"; OWrite WOther "k.storeService.OpenKVStore"]>);
-  mkOF "parameter" "UpdateTotalBlocksPerYear" "MsgUpdateTotalBlocksPerYear" "Creator" CE "" (<[OCheck; ORead "k.GetParams"; OWrite WOther "k.storeService.OpenKVStore"]>);
-  mkOF "perpetual" "Close" "MsgClose" "Creator" CA "" (<[ORead "k.assetProfileKeeper.GetEntry"; OCheck; OSelect KSigner "o1" "k.GetMTP"; OCheck; ORead "k.GetAmmPool"; OCheck; OWrite WOther "k.storeService.OpenKVStore"; ORead "k.parameterKeeper.GetParams"; OCheck; ORead "k.GetParams"; OCheck; OCheck; ORead "k.GetParams"; ORead "k.GetPool"; OCheck; ORead "k.GetPool"; OCheck; OCheck; ORead "k.GetAssetPrice"; OCheck; OCheck; ORead "k.GetParams"; OCheck; OCheck; OWrite WObj "k.bankKeeper.SendCoins"; OCheck; OWrite WObj "k.amm.RemoveFromPoolBalanceAndUpdateLiquidity"; OCheck; OCheck; OCheck; OCheck; OCheck; OWrite WObj "k.bankKeeper.SendCoins"; OCheck; OWrite WObj "k.amm.RemoveFromPoolBalanceAndUpdateLiquidity"; OCheck; OCheck; OCheck; OCheck; OCheck; ORead "k.GetFundingRate"; OCheck; OCheck; OCheck; OCheck; OCheck; OCheck; ORead "k.GetAssetPrice"; OCheck; OCheck; OCheck; ORead "k.GetFundingDistributionValue"; OCheck; OCheck; OCheck; OCheck; OCheck; OCheck; OCheck; OCheck; OCheck; ORead "k.GetAssetPrice"; OCheck; OCheck; OCheck; OCheck; OWrite WOther "k.storeService.OpenKVStore"; ORead "k.GetMTPCount"; OWrite WOther "k.GetOpenMTPCount"; OWrite WOther "k.SetMTPCount"; OWrite WOther "k.SetOpenMTPCount"; OCheck; OCheck; OWrite WOther "k.storeService.OpenKVStore"; OCheck; OCheck; OCheck; OCheck; ORead "k.GetParams"; ORead "k.tierKeeper.GetMembershipTier"; OWrite WObj "k.amm.GetAccountedPoolSnapshotOrSet"; OWrite WObj "k.amm.SwapInAmtGivenOut"; OCheck; OCheck; OCheck; OCheck; OCheck; ORead "k.GetParams"; ORead "k.tierKeeper.GetMembershipTier"; OWrite WObj "k.amm.GetAccountedPoolSnapshotOrSet"; OWrite WObj "k.amm.SwapInAmtGivenOut"; OCheck; OCheck; OCheck; OCheck; OCheck; OCheck; OCheck; OWrite WObj "k.bankKeeper.SendCoins"; OCheck; OWrite WObj "k.amm.RemoveFromPoolBalanceAndUpdateLiquidity"; OCheck; OCheck; OCheck; OCheck; OCheck; OCheck; OCheck; OCheck; OWrite WOther "k.storeService.OpenKVStore"; OCheck; OWrite WOther "k.GetOpenMTPCount"; OWrite WOther "k.SetOpenMTPCount"; OCheck; ORead "k.GetMTPHealth"; OCheck; OWrite WOther "k.storeService.OpenKVStore"; ORead "k.GetMTPCount"; OWrite WOther "k.GetOpenMTPCount"; OWrite WOther "k.SetMTPCount"; OWrite WOther "k.SetOpenMTPCount"; OCheck; OCheck; OWrite WOther "k.storeService.OpenKVStore"; OCheck; OCheck; OCheck; ORead "k.GetParams"; OWrite WSigner "k.hooks.AfterPerpetualPositionClosed"; OCheck; OCheck]>);
-  mkOF "perpetual" "ClosePositions" "MsgClosePositions" "Creator" CU "x/perpetual/keeper/pool.go:112: write k.storeService.OpenKVStore while the owner of o1@x/perpetual/keeper/msg_server_close_positions.go:25 k.GetMTP (selected without the signer in its key) has not been compared with the signer | loop entered with an unchecked selection: o2@x/perpetual/keeper/msg_server_close_positions.go:54 k.GetMTP | loop entered with an unchecked selection: o3@x/perpetual/keeper/msg_server_close_positions.go:78 k.GetMTP" (<[ORead "k.assetProfileKeeper.GetEntry"; OCheck; OLoop true (<[OSelect KId "o1" "k.GetMTP at x/perpetual/keeper/msg_server_close_positions.go:25"; OCheck; ORead "k.GetPool"; OCheck; ORead "k.GetAmmPool"; OCheck; ORead "k.CalcMTPTakeProfitLiability"; OCheck; OCheck; OWrite WOther "k.storeService.OpenKVStore"; ORead "k.parameterKeeper.GetParams"; OCheck; ORead "k.GetParams"; OCheck; OCheck; ORead "k.GetParams"; ORead "k.GetPool"; OCheck; OCheck; ORead "k.GetAssetPrice"; OCheck; OCheck; ORead "k.GetParams"; OCheck; OCheck; OWrite WObj "k.bankKeeper.SendCoins"; OCheck; OWrite WObj "k.amm.RemoveFromPoolBalanceAndUpdateLiquidity"; OCheck; OCheck; OCheck; OCheck; OCheck; OWrite WObj "k.bankKeeper.SendCoins"; OCheck; OWrite WObj "k.amm.RemoveFromPoolBalanceAndUpdateLiquidity"; OCheck; OCheck; OCheck; OCheck; OCheck; ORead "k.GetFundingRate"; OCheck; OCheck; OCheck; OCheck; OCheck; OCheck; ORead "k.GetAssetPrice"; OCheck; OCheck; OCheck; ORead "k.GetFundingDistributionValue"; OCheck; OCheck; OCheck; OCheck; OCheck; OCheck; OCheck; OCheck; OCheck; ORead "k.GetAssetPrice"; OCheck; OCheck; OCheck; OCheck; OWrite WOther "k.storeService.OpenKVStore"; ORead "k.GetMTPCount"; OWrite WOther "k.GetOpenMTPCount"; OWrite WOther "k.SetMTPCount"; OWrite WOther "k.SetOpenMTPCount"; OCheck; OCheck; OWrite WOther "k.storeService.OpenKVStore"; OCheck; ORead "k.GetMTPHealth"; OCheck; OWrite WOther "k.storeService.OpenKVStore"; ORead "k.GetMTPCount"; OWrite WOther "k.GetOpenMTPCount"; OWrite WOther "k.SetMTPCount"; OWrite WOther "k.SetOpenMTPCount"; OCheck; OCheck; OWrite WOther "k.storeService.OpenKVStore"; OCheck; ORead "k.GetAmmPool"; OCheck; ORead "k.GetParams"; OWrite WObj "k.hooks.AfterPerpetualPositionModified"; OCheck; ORead "k.GetSafetyFactor"; OCheck; ORead "k.GetAmmPool"; OCheck; OCheck; OCheck; OCheck; ORead "k.GetParams"; ORead "k.tierKeeper.GetMembershipTier"; OWrite WObj "k.amm.GetAccountedPoolSnapshotOrSet"; OWrite WObj "k.amm.SwapInAmtGivenOut"; OCheck; OCheck; OCheck; OCheck; OCheck; ORead "k.GetParams"; ORead "k.tierKeeper.GetMembershipTier"; OWrite WObj "k.amm.GetAccountedPoolSnapshotOrSet"; OWrite WObj "k.amm.SwapInAmtGivenOut"; OCheck; OCheck; OCheck; OCheck; OCheck; OCheck; OCheck; OWrite WObj "k.bankKeeper.SendCoins"; OCheck; OWrite WObj "k.amm.RemoveFromPoolBalanceAndUpdateLiquidity"; OCheck; OCheck; OCheck; OCheck; OCheck; OCheck; OCheck; OCheck; OWrite WOther "k.storeService.OpenKVStore"; OCheck; OWrite WOther "k.GetOpenMTPCount"; OWrite WOther "k.SetOpenMTPCount"; OCheck; ORead "k.GetMTPHealth"; OCheck; OWrite WOther "k.storeService.OpenKVStore"; ORead "k.GetMTPCount"; OWrite WOther "k.GetOpenMTPCount"; OWrite WOther "k.SetMTPCount"; OWrite WOther "k.SetOpenMTPCount"; OCheck; OCheck; OWrite WOther "k.storeService.OpenKVStore"; OCheck; OCheck; OCheck; ORead "k.GetParams"; OWrite WObj "k.hooks.AfterPerpetualPositionClosed"; OCheck; ORead "k.GetAmmPool"; OCheck; OCheck; OCheck; OCheck; ORead "k.GetParams"; ORead "k.tierKeeper.GetMembershipTier"; OWrite WObj "k.amm.GetAccountedPoolSnapshotOrSet"; OWrite WObj "k.amm.SwapInAmtGivenOut"; OCheck; OCheck; OCheck; OCheck; OCheck; ORead "k.GetParams"; ORead "k.tierKeeper.GetMembershipTier"; OWrite WObj "k.amm.GetAccountedPoolSnapshotOrSet"; OWrite WObj "k.amm.SwapInAmtGivenOut"; OCheck; OCheck; OCheck; OCheck; OCheck; OCheck; OCheck; OWrite WObj "k.bankKeeper.SendCoins"; OCheck; OWrite WObj "k.amm.RemoveFromPoolBalanceAndUpdateLiquidity"; OCheck; OCheck; OCheck; OCheck; OCheck; OCheck; OCheck; OCheck; OWrite WOther "k.storeService.OpenKVStore"; OCheck; OWrite WOther "k.GetOpenMTPCount"; OWrite WOther "k.SetOpenMTPCount"; OCheck; ORead "k.GetMTPHealth"; OCheck; OWrite WOther "k.storeService.OpenKVStore"; ORead "k.GetMTPCount"; OWrite WOther "k.GetOpenMTPCount"; OWrite WOther "k.SetMTPCount"; OWrite WOther "k.SetOpenMTPCount"; OCheck; OCheck; OWrite WOther "k.storeService.OpenKVStore"; OCheck; OCheck; OCheck; ORead "k.GetParams"; OWrite WObj "k.hooks.AfterPerpetualPositionClosed"; OCheck; OCheck; OWrite WOther "write"]>); OLoop true (<[OSelect KId "o2" "k.GetMTP at x/perpetual/keeper/msg_server_close_positions.go:54"; OCheck; ORead "k.GetPool"; OCheck; OLoop false (ONil); ORead "k.GetAssetPrice"; OCheck; OCheck; OCheck; OCheck; ORead "k.GetAmmPool"; OCheck; OCheck; OCheck; OCheck; ORead "k.GetParams"; ORead "k.tierKeeper.GetMembershipTier"; OWrite WObj "k.amm.GetAccountedPoolSnapshotOrSet"; OWrite WObj "k.amm.SwapInAmtGivenOut"; OCheck; OCheck; OCheck; OCheck; OCheck; ORead "k.GetParams"; ORead "k.tierKeeper.GetMembershipTier"; OWrite WObj "k.amm.GetAccountedPoolSnapshotOrSet"; OWrite WObj "k.amm.SwapInAmtGivenOut"; OCheck; OCheck; OCheck; OCheck; OCheck; OCheck; OCheck; OWrite WObj "k.bankKeeper.SendCoins"; OCheck; OWrite WObj "k.amm.RemoveFromPoolBalanceAndUpdateLiquidity"; OCheck; OCheck; OCheck; OCheck; OCheck; OCheck; OCheck; OCheck; OWrite WOther "k.storeService.OpenKVStore"; OCheck; OWrite WOther "k.GetOpenMTPCount"; OWrite WOther "k.SetOpenMTPCount"; OCheck; ORead "k.GetMTPHealth"; OCheck; OWrite WOther "k.storeService.OpenKVStore"; ORead "k.GetMTPCount"; OWrite WOther "k.GetOpenMTPCount"; OWrite WOther "k.SetMTPCount"; OWrite WOther "k.SetOpenMTPCount"; OCheck; OCheck; OWrite WOther "k.storeService.OpenKVStore"; OCheck; OCheck; OCheck; ORead "k.GetParams"; OWrite WObj "k.hooks.AfterPerpetualPositionClosed"; OCheck; ORead "k.GetAmmPool"; OCheck; OCheck; OCheck; OCheck; ORead "k.GetParams"; ORead "k.tierKeeper.GetMembershipTier"; OWrite WObj "k.amm.GetAccountedPoolSnapshotOrSet"; OWrite WObj "k.amm.SwapInAmtGivenOut"; OCheck; OCheck; OCheck; OCheck; OCheck; ORead "k.GetParams"; ORead "k.tierKeeper.GetMembershipTier"; OWrite WObj "k.amm.GetAccountedPoolSnapshotOrSet"; OWrite WObj "k.amm.SwapInAmtGivenOut"; OCheck; OCheck; OCheck; OCheck; OCheck; OCheck; OCheck; OWrite WObj "k.bankKeeper.SendCoins"; OCheck; OWrite WObj "k.amm.RemoveFromPoolBalanceAndUpdateLiquidity"; OCheck; OCheck; OCheck; OCheck; OCheck; OCheck; OCheck; OCheck; OWrite WOther "k.storeService.OpenKVStore"; OCheck; OWrite WOther "k.GetOpenMTPCount"; OWrite WOther "k.SetOpenMTPCount"; OCheck; ORead "k.GetMTPHealth"; OCheck; OWrite WOther "k.storeService.OpenKVStore"; ORead "k.GetMTPCount"; OWrite WOther "k.GetOpenMTPCount"; OWrite WOther "k.SetMTPCount"; OWrite WOther "k.SetOpenMTPCount"; OCheck; OCheck; OWrite WOther "k.storeService.OpenKVStore"; OCheck; OCheck; OCheck; ORead "k.GetParams"; OWrite WObj "k.hooks.AfterPerpetualPositionClosed"; OCheck; OCheck; OWrite WOther "write"]>); OLoop true (<[OSelect KId "o3" "k.GetMTP at x/perpetual/keeper/msg_server_close_positions.go:78"; OCheck; ORead "k.GetPool"; OCheck; OLoop false (ONil); ORead "k.GetAssetPrice"; OCheck; OCheck; OCheck; OCheck; ORead "k.GetAmmPool"; OCheck; OCheck; OCheck; OCheck; ORead "k.GetParams"; ORead "k.tierKeeper.GetMembershipTier"; OWrite WObj "k.amm.GetAccountedPoolSnapshotOrSet"; OWrite WObj "k.amm.SwapInAmtGivenOut"; OCheck; OCheck; OCheck; OCheck; OCheck; ORead "k.GetParams"; ORead "k.tierKeeper.GetMembershipTier"; OWrite WObj "k.amm.GetAccountedPoolSnapshotOrSet"; OWrite WObj "k.amm.SwapInAmtGivenOut"; OCheck; OCheck; OCheck; OCheck; OCheck; OCheck; OCheck; OWrite WObj "k.bankKeeper.SendCoins"; OCheck; OWrite WObj "k.amm.RemoveFromPoolBalanceAndUpdateLiquidity"; OCheck; OCheck; OCheck; OCheck; OCheck; OCheck; OCheck; OCheck; OWrite WOther "k.storeService.OpenKVStore"; OCheck; OWrite WOther "k.GetOpenMTPCount"; OWrite WOther "k.SetOpenMTPCount"; OCheck; ORead "k.GetMTPHealth"; OCheck; OWrite WOther "k.storeService.OpenKVStore"; ORead "k.GetMTPCount"; OWrite WOther "k.GetOpenMTPCount"; OWrite WOther "k.SetMTPCount"; OWrite WOther "k.SetOpenMTPCount"; OCheck; OCheck; OWrite WOther "k.storeService.OpenKVStore"; OCheck; OCheck; OCheck; ORead "k.GetParams"; OWrite WObj "k.hooks.AfterPerpetualPositionClosed"; OCheck; ORead "k.GetAmmPool"; OCheck; OCheck; OCheck; OCheck; ORead "k.GetParams"; ORead "k.tierKeeper.GetMembershipTier"; OWrite WObj "k.amm.GetAccountedPoolSnapshotOrSet"; OWrite WObj "k.amm.SwapInAmtGivenOut"; OCheck; OCheck; OCheck; OCheck; OCheck; ORead "k.GetParams"; ORead "k.tierKeeper.GetMembershipTier"; OWrite WObj "k.amm.GetAccountedPoolSnapshotOrSet"; OWrite WObj "k.amm.SwapInAmtGivenOut"; OCheck; OCheck; OCheck; OCheck; OCheck; OCheck; OCheck; OWrite WObj "k.bankKeeper.SendCoins"; OCheck; OWrite WObj "k.amm.RemoveFromPoolBalanceAndUpdateLiquidity"; OCheck; OCheck; OCheck; OCheck; OCheck; OCheck; OCheck; OCheck; OWrite WOther "k.storeService.OpenKVStore"; OCheck; OWrite WOther "k.GetOpenMTPCount"; OWrite WOther "k.SetOpenMTPCount"; OCheck; ORead "k.GetMTPHealth"; OCheck; OWrite WOther "k.storeService.OpenKVStore"; ORead "k.GetMTPCount"; OWrite WOther "k.GetOpenMTPCount"; OWrite WOther "k.SetMTPCount"; OWrite WOther "k.SetOpenMTPCount"; OCheck; OCheck; OWrite WOther "k.storeService.OpenKVStore"; OCheck; OCheck; OCheck; ORead "k.GetParams"; OWrite WObj "k.hooks.AfterPerpetualPositionClosed"; OCheck; OCheck; OWrite WOther "write"]>)]>);
-  mkOF "perpetual" "Dewhitelist" "MsgDewhitelist" "Authority" CE "" (<[OCheck; OCheck; OWrite WOther "k.storeService.OpenKVStore"]>);
-  mkOF "perpetual" "Open" "MsgOpen" "Creator" CA "" (<[ORead "k.assetProfileKeeper.GetEntry"; OCheck; OCheck; OCheck; ORead "k.GetParams"; ORead "k.GetAssetPrice"; OCheck; OCheck; OCheck; OCheck; OCheck; OCheck; OCheck; ORead "k.IsWhitelistingEnabled"; ORead "k.CheckIfWhitelisted"; OCheck; OCheck; OSelect KSigner "o1" "k.GetAllMTPsForAddress"; OLoop false (<[OCheck]>); OCheck; OCheck; OWrite WOther "k.CheckMaxOpenPositions"; OCheck; ORead "k.GetAmmPool"; OCheck; OCheck; ORead "k.GetPool"; OCheck; ORead "k.GetPool"; OCheck; OWrite WOther "k.GetPoolOpenThreshold"; OCheck; ORead "k.CheckMinimumCustodyAmt"; OCheck; OCheck; ORead "k.GetMaxLeverageParam"; ORead "k.GetPool"; OCheck; ORead "k.GetAmmPool"; OCheck; OCheck; OCheck; ORead "k.GetParams"; ORead "k.tierKeeper.GetMembershipTier"; OWrite WOther "k.amm.GetAccountedPoolSnapshotOrSet"; OWrite WSigner "k.amm.SwapInAmtGivenOut"; OCheck; OCheck; OCheck; OCheck; OCheck; OCheck; OCheck; ORead "k.GetParams"; ORead "k.tierKeeper.GetMembershipTier"; OWrite WOther "k.amm.GetAccountedPoolSnapshotOrSet"; OWrite WSigner "k.amm.SwapOutAmtGivenIn"; OCheck; OCheck; OCheck; OCheck; OCheck; OCheck; OCheck; ORead "k.bankKeeper.HasBalance"; OCheck; OCheck; OCheck; OCheck; ORead "k.GetParams"; ORead "k.tierKeeper.GetMembershipTier"; OWrite WOther "k.amm.GetAccountedPoolSnapshotOrSet"; OWrite WSigner "k.amm.SwapInAmtGivenOut"; OCheck; OCheck; OCheck; OCheck; OCheck; OCheck; ORead "k.GetParams"; ORead "k.tierKeeper.GetMembershipTier"; OWrite WOther "k.amm.GetAccountedPoolSnapshotOrSet"; OWrite WSigner "k.amm.SwapInAmtGivenOut"; OCheck; OCheck; OCheck; ORead "k.CalcMTPTakeProfitLiability"; OCheck; ORead "k.GetMTPHealth"; OCheck; OCheck; OWrite WSigner "k.bankKeeper.SendCoins"; OCheck; OWrite WSigner "k.amm.AddToPoolBalanceAndUpdateLiquidity"; OCheck; OCheck; OCheck; OCheck; OCheck; OCheck; OCheck; OWrite WOther "k.SetPool"; OWrite WOther "k.storeService.OpenKVStore"; ORead "k.GetMTPCount"; OWrite WOther "k.GetOpenMTPCount"; OWrite WOther "k.SetMTPCount"; OWrite WOther "k.SetOpenMTPCount"; OCheck; OCheck; OWrite WOther "k.UpdatePoolHealth"; OCheck; ORead "k.GetMTPHealth"; OCheck; ORead "k.GetSafetyFactor"; OCheck; ORead "k.GetLiquidationPrice"; OWrite WOther "k.storeService.OpenKVStore"; ORead "k.GetMTPCount"; OWrite WOther "k.GetOpenMTPCount"; OWrite WOther "k.SetMTPCount"; OWrite WOther "k.SetOpenMTPCount"; OCheck; OCheck; OCheck; OWrite WOther "k.storeService.OpenKVStore"; ORead "k.GetMTPCount"; OWrite WOther "k.GetOpenMTPCount"; OWrite WOther "k.SetMTPCount"; OWrite WOther "k.SetOpenMTPCount"; OCheck; OCheck; OCheck; OCheck; ORead "k.GetAmmPool"; OCheck; OWrite WOther "k.storeService.OpenKVStore"; ORead "k.parameterKeeper.GetParams"; OCheck; ORead "k.GetParams"; OCheck; OCheck; ORead "k.GetParams"; ORead "k.GetPool"; OCheck; ORead "k.GetPool"; OCheck; ORead "k.GetFundingRate"; OCheck; OCheck; OCheck; OCheck; OCheck; OCheck; ORead "k.GetAssetPrice"; OCheck; OCheck; OCheck; ORead "k.GetFundingDistributionValue"; OCheck; OCheck; OCheck; OCheck; OCheck; OCheck; OCheck; OCheck; OCheck; ORead "k.GetAssetPrice"; OCheck; OCheck; OCheck; OCheck; OWrite WOther "k.storeService.OpenKVStore"; ORead "k.GetMTPCount"; OWrite WOther "k.GetOpenMTPCount"; OWrite WOther "k.SetMTPCount"; OWrite WOther "k.SetOpenMTPCount"; OCheck; OCheck; OWrite WOther "k.storeService.OpenKVStore"; OCheck; OWrite WOther "k.storeService.OpenKVStore"; ORead "k.GetMTPCount"; OWrite WOther "k.GetOpenMTPCount"; OWrite WOther "k.SetMTPCount"; OWrite WOther "k.SetOpenMTPCount"; OCheck; OCheck; OWrite WOther "k.storeService.OpenKVStore"; OCheck; OWrite WOther "k.GetOpenMTPCount"; OWrite WOther "k.SetOpenMTPCount"; OCheck; OCheck; ORead "k.GetMTPHealth"; OCheck; ORead "k.GetSafetyFactor"; OCheck; ORead "k.GetLiquidationPrice"; OWrite WOther "k.storeService.OpenKVStore"; ORead "k.GetMTPCount"; OWrite WOther "k.GetOpenMTPCount"; OWrite WOther "k.SetMTPCount"; OWrite WOther "k.SetOpenMTPCount"; OCheck; OCheck; OCheck; ORead "k.GetParams"; OWrite WSigner "k.hooks.AfterPerpetualPositionModified"; OCheck; ORead "k.GetPool"; OCheck; OWrite WOther "k.GetPoolOpenThreshold"; OCheck; ORead "k.CheckMinimumCustodyAmt"; OCheck; OCheck; OSelect KSigner "o2" "k.GetMTP"; OCheck; ORead "k.GetAmmPool"; OCheck; ORead "k.GetMTPHealth"; OCheck; ORead "k.GetSafetyFactor"; OCheck; OCheck; ORead "k.GetPool"; OCheck; OWrite WOther "k.GetPoolOpenThreshold"; OCheck; ORead "k.CheckMinimumCustodyAmt"; OCheck; OCheck; OCheck; ORead "k.GetPool"; OCheck; ORead "k.GetAmmPool"; OCheck; OWrite WSigner "k.hooks.AfterPerpetualPositionOpen"; OCheck; OSelect KSigner "o3" "k.GetMTP"; OCheck; ORead "k.GetAmmPool"; OCheck; ORead "k.GetMTPHealth"; OCheck; ORead "k.GetSafetyFactor"; OCheck; OCheck]>);
-  mkOF "perpetual" "UpdateParams" "MsgUpdateParams" "Authority" CE "" (<[OCheck; OCheck; OWrite WOther "k.storeService.OpenKVStore"; OCheck; OCheck; OCheck; ORead "k.GetAllPools"; OLoop false (<[ORead "k.GetAmmPool"; OCheck; OWrite WOther "k.hooks.AfterParamsChange"; OCheck]>)]>);
-  mkOF "perpetual" "UpdateStopLoss" "MsgUpdateStopLoss" "Creator" CA "" (<[OSelect KSigner "o1" "k.GetMTP"; OCheck; ORead "k.GetPool"; OCheck; ORead "k.GetAssetPrice"; OCheck; OCheck; OCheck; OCheck; OCheck; OWrite WOther "k.storeService.OpenKVStore"; ORead "k.GetMTPCount"; OWrite WOther "k.GetOpenMTPCount"; OWrite WOther "k.SetMTPCount"; OWrite WOther "k.SetOpenMTPCount"; OCheck; OCheck]>);
-  mkOF "perpetual" "UpdateTakeProfitPrice" "MsgUpdateTakeProfitPrice" "Creator" CA "" (<[OSelect KSigner "o1" "k.GetMTP"; OCheck; ORead "k.GetPool"; OCheck; ORead "k.GetParams"; ORead "k.GetAssetPrice"; OCheck; OCheck; OCheck; OCheck; OCheck; ORead "k.CalcMTPTakeProfitLiability"; OCheck; OCheck; OCheck; OWrite WOther "k.storeService.OpenKVStore"; ORead "k.GetMTPCount"; OWrite WOther "k.GetOpenMTPCount"; OWrite WOther "k.SetMTPCount"; OWrite WOther "k.SetOpenMTPCount"; OCheck; OCheck; OWrite WOther "k.storeService.OpenKVStore"; ORead "k.GetAmmPool"; OCheck; OCheck; ORead "k.GetParams"; OWrite WSigner "k.hooks.AfterPerpetualPositionModified"; OCheck]>);
-  mkOF "perpetual" "Whitelist" "MsgWhitelist" "Authority" CE "" (<[OCheck; OCheck; OWrite WOther "k.storeService.OpenKVStore"]>);
-  mkOF "stablestake" "Bond" "MsgBond" "Creator" CA "" (<[ORead "k.GetParams"; ORead "k.GetRedemptionRate"; OWrite WOther "k.GetDepositDenom"; OWrite WSigner "k.bk.SendCoinsFromAccountToModule"; OCheck; OWrite WOther "k.bk.MintCoins"; OCheck; OWrite WSigner "k.bk.SendCoinsFromModuleToAccount"; OCheck; ORead "k.assetProfileKeeper.GetEntry"; OWrite WOther "k.assetProfileKeeper.SetEntry"; OWrite WSigner "k.commitmentKeeper.CommitLiquidTokens"; OCheck; OWrite WOther "k.storeService.OpenKVStore"; OCheck; OWrite WSigner "k.hooks.AfterBond"; OCheck]>);
-  mkOF "stablestake" "Unbond" "MsgUnbond" "Creator" CA "" (<[ORead "k.GetParams"; ORead "k.GetRedemptionRate"; OWrite WSigner "k.commitmentKeeper.UncommitTokens"; OCheck; OWrite WSigner "k.bk.SendCoinsFromAccountToModule"; OCheck; OWrite WOther "k.bk.BurnCoins"; OCheck; OWrite WOther "k.GetDepositDenom"; OWrite WSigner "k.bk.SendCoinsFromModuleToAccount"; OCheck; OWrite WOther "k.storeService.OpenKVStore"; OCheck; OWrite WSigner "k.hooks.AfterUnbond"; OCheck]>);
-  mkOF "stablestake" "UpdateParams" "MsgUpdateParams" "Authority" CE "" (<[OCheck; ORead "k.GetParams"; OWrite WOther "k.storeService.OpenKVStore"]>);
-  mkOF "tier" "SetPortfolio" "MsgSetPortfolio" "Creator" CU "loop entered with an unchecked selection: o1@x/tier/keeper/portfolio.go:78 k.commitement.GetCommitments | x/tier/keeper/portfolio.go:103: write k.commitement.CommitmentVestingInfo while the owner of o2@x/tier/keeper/portfolio.go:101 k.commitement.GetCommitments (selected without the signer in its key) has not been compared with the signer | x/tier/keeper/portfolio.go:143: write k.stakingKeeper.BondDenom while the owner of o3@x/tier/keeper/portfolio.go:138 k.stakingKeeper.GetAllDelegatorDelegations (selected without the signer in its key) has not been compared with the signer | loop entered with an unchecked selection: o4@x/tier/keeper/portfolio.go:161 k.stakingKeeper.GetUnbondingDelegations | loop entered with an unchecked selection: o5@x/tier/keeper/portfolio.go:273 k.leveragelp.GetPositionsForAddress | loop entered with an unchecked selection: o6@x/tier/keeper/portfolio.go:304 k.tradeshieldKeeper.GetPendingPerpetualOrdersForAddress | loop entered with an unchecked selection: o7@x/tier/keeper/portfolio.go:316 k.tradeshieldKeeper.GetPendingSpotOrdersForAddress" (<[ORead "k.GetDateFromContext"; ORead "k.GetPortfolio"; OCheck; ORead "k.bankKeeper.GetAllBalances"; ORead "k.amm.Balance"; OLoop false (<[ORead "k.oracleKeeper.GetAssetPriceFromDenom"; ORead "k.assetProfileKeeper.GetEntryByDenom"; OCheck; ORead "k.amm.CalcAmmPrice"]>); OWrite WOther "k.estaking.Rewards"; OWrite WOther "k.masterchef.UserPendingReward"; OCheck; OLoop false (<[ORead "k.oracleKeeper.GetAssetPriceFromDenom"; ORead "k.assetProfileKeeper.GetEntryByDenom"; OCheck; ORead "k.amm.CalcAmmPrice"]>); OCheck; OLoop false (<[ORead "k.oracleKeeper.GetAssetPriceFromDenom"; ORead "k.assetProfileKeeper.GetEntryByDenom"; OCheck; ORead "k.amm.CalcAmmPrice"]>); ORead "k.perpetual.GetMTPsForAddressWithPagination"; OCheck; ORead "k.assetProfileKeeper.GetUsdcDenom"; OCheck; OLoop false (<[ORead "k.amm.CalculateUSDValue"; ORead "k.amm.CalculateUSDValue"; ORead "k.amm.CalculateUSDValue"; ORead "k.amm.CalculateUSDValue"]>); OSelect KId "o1" "k.commitement.GetCommitments at x/tier/keeper/portfolio.go:78"; OLoop false (<[OCheck; OCheck; ORead "k.amm.GetPool"; OCheck; OWrite WObj "k.amm.PoolExtraInfo"]>); OSelect KId "o2" "k.commitement.GetCommitments at x/tier/keeper/portfolio.go:101"; OWrite WOther "k.commitement.CommitmentVestingInfo"; OLoop false (<[OCheck; OCheck; ORead "k.assetProfileKeeper.GetUsdcDenom"; OCheck; ORead "k.oracleKeeper.GetAssetPriceFromDenom"; ORead "k.stablestakeKeeper.GetParams"; ORead "k.oracleKeeper.GetAssetPriceFromDenom"; ORead "k.assetProfileKeeper.GetEntryByDenom"; OCheck; ORead "k.amm.CalcAmmPrice"]>); OSelect KId "o3" "k.stakingKeeper.GetAllDelegatorDelegations at x/tier/keeper/portfolio.go:138"; OWrite WOther "k.stakingKeeper.BondDenom"; ORead "k.oracleKeeper.GetAssetPriceFromDenom"; ORead "k.assetProfileKeeper.GetEntryByDenom"; ORead "k.amm.CalcAmmPrice"; OLoop false (ONil); OSelect KId "o4" "k.stakingKeeper.GetUnbondingDelegations at x/tier/keeper/portfolio.go:161"; OLoop false (<[OLoop false (ONil)]>); ORead "k.assetProfileKeeper.GetUsdcDenom"; ORead "k.amm.GetEdenDenomPrice"; OSelect KId "o5" "k.leveragelp.GetPositionsForAddress at x/tier/keeper/portfolio.go:273"; OCheck; OLoop false (<[ORead "k.amm.GetPool"; OCheck; OWrite WObj "k.amm.PoolExtraInfo"; ORead "k.stablestakeKeeper.GetDebt"; ORead "k.assetProfileKeeper.GetUsdcDenom"; OCheck; ORead "k.oracleKeeper.GetAssetPriceFromDenom"]>); OSelect KId "o6" "k.tradeshieldKeeper.GetPendingPerpetualOrdersForAddress at x/tier/keeper/portfolio.go:304"; OLoop false (<[ORead "k.bankKeeper.GetAllBalances"; OLoop false (<[ORead "k.amm.CalculateUSDValue"]>)]>); OSelect KId "o7" "k.tradeshieldKeeper.GetPendingSpotOrdersForAddress at x/tier/keeper/portfolio.go:316"; OLoop false (<[ORead "k.bankKeeper.GetAllBalances"; OLoop false (<[ORead "k.amm.CalculateUSDValue"]>)]>); OWrite WOther "k.storeService.OpenKVStore"]>);
-  mkOF "tokenomics" "ClaimAirdrop" "MsgClaimAirdrop" "Sender" CB "" (<[OSelect KSigner "o1" "k.GetAirdrop"; OCheck; OCompare "o1" "Sender"; OCheck; OSelect KSigner "o2" "k.commitmentKeeper.GetCommitments"; OWrite WObj "k.commitmentKeeper.SetCommitments"; OWrite WOther "k.storeService.OpenKVStore"]>);
-  mkOF "tokenomics" "CreateAirdrop" "MsgCreateAirdrop" "Authority" CE "" (<[OCheck; OSelect KId "o1" "k.GetAirdrop at x/tokenomics/keeper/msg_server_airdrop.go:23"; OCheck; OWrite WOther "k.storeService.OpenKVStore"]>);
-  mkOF "tokenomics" "CreateTimeBasedInflation" "MsgCreateTimeBasedInflation" "Authority" CE "" (<[OCheck; OSelect KId "o1" "k.GetTimeBasedInflation at x/tokenomics/keeper/msg_server_time_based_inflation.go:21"; OCheck; OWrite WOther "k.storeService.OpenKVStore"]>);
-  mkOF "tokenomics" "DeleteAirdrop" "MsgDeleteAirdrop" "Authority" CE "" (<[OCheck; OSelect KId "o1" "k.GetAirdrop at x/tokenomics/keeper/msg_server_airdrop.go:76"; OCheck; OCompare "o1" "Authority"; OWrite WOther "k.storeService.OpenKVStore"]>);
-  mkOF "tokenomics" "DeleteTimeBasedInflation" "MsgDeleteTimeBasedInflation" "Authority" CE "" (<[OCheck; OSelect KId "o1" "k.GetTimeBasedInflation at x/tokenomics/keeper/msg_server_time_based_inflation.go:77"; OCheck; OCompare "o1" "Authority"; OWrite WOther "k.storeService.OpenKVStore"]>);
-  mkOF "tokenomics" "UpdateAirdrop" "MsgUpdateAirdrop" "Authority" CE "" (<[OCheck; OSelect KId "o1" "k.GetAirdrop at x/tokenomics/keeper/msg_server_airdrop.go:47"; OCheck; OCompare "o1" "Authority"; OWrite WOther "k.storeService.OpenKVStore"]>);
-  mkOF "tokenomics" "UpdateGenesisInflation" "MsgUpdateGenesisInflation" "Authority" CE "" (<[OCheck; OWrite WOther "k.storeService.OpenKVStore"]>);
-  mkOF "tokenomics" "UpdateTimeBasedInflation" "MsgUpdateTimeBasedInflation" "Authority" CE "" (<[OCheck; OSelect KId "o1" "k.GetTimeBasedInflation at x/tokenomics/keeper/msg_server_time_based_inflation.go:46"; OCheck; OCompare "o1" "Authority"; OWrite WOther "k.storeService.OpenKVStore"]>);
-  mkOF "tradeshield" "CancelPerpetualOrder" "MsgCancelPerpetualOrder" "OwnerAddress" CB "" (<[OSelect KId "o1" "k.GetPendingPerpetualOrder at x/tradeshield/keeper/msg_server_perpetual_order.go:172"; OCheck; OCompare "o1" "OwnerAddress"; OWrite WObj "k.Keeper.bank.SendCoins"; OCheck; OWrite WOther "k.storeService.OpenKVStore"]>);
-  mkOF "tradeshield" "CancelPerpetualOrders" "MsgCancelPerpetualOrders" "OwnerAddress" CC "" (<[OCheck; OLoop false (<[OInner "tradeshield.CancelPerpetualOrder" "OwnerAddress" (SrcSigner) (<[OSelect KId "o1" "k.GetPendingPerpetualOrder at x/tradeshield/keeper/msg_server_perpetual_order.go:172"; OCheck; OCompare "o1" "OwnerAddress"; OWrite WObj "k.Keeper.bank.SendCoins"; OCheck; OWrite WOther "k.storeService.OpenKVStore"]>); OCheck]>)]>);
-  mkOF "tradeshield" "CancelSpotOrder" "MsgCancelSpotOrder" "OwnerAddress" CB "" (<[OSelect KId "o1" "k.GetPendingSpotOrder at x/tradeshield/keeper/msg_server_spot_order.go:82"; OCheck; OCompare "o1" "OwnerAddress"; ORead "k.Keeper.bank.GetAllBalances"; OCheck; OWrite WObj "k.Keeper.bank.SendCoins"; OCheck; OWrite WOther "k.storeService.OpenKVStore"]>);
-  mkOF "tradeshield" "CancelSpotOrders" "MsgCancelSpotOrders" "Creator" CC "" (<[OCheck; OLoop false (<[OInner "tradeshield.CancelSpotOrder" "OwnerAddress" (SrcSigner) (<[OSelect KId "o1" "k.GetPendingSpotOrder at x/tradeshield/keeper/msg_server_spot_order.go:82"; OCheck; OCompare "o1" "Creator"; ORead "k.Keeper.bank.GetAllBalances"; OCheck; OWrite WObj "k.Keeper.bank.SendCoins"; OCheck; OWrite WOther "k.storeService.OpenKVStore"]>); OCheck]>)]>);
-  mkOF "tradeshield" "CreatePerpetualCloseOrder" "MsgCreatePerpetualCloseOrder" "OwnerAddress" CD "" (ONil);
-  mkOF "tradeshield" "CreatePerpetualOpenOrder" "MsgCreatePerpetualOpenOrder" "OwnerAddress" CA "" (<[ORead "k.perpetual.GetPool"; OCheck; OSelect KSigner "o1" "k.GetPendingPerpetualOrdersForAddress"; OCheck; OLoop false (<[OCheck]>); ORead "k.perpetual.GetMTPsForAddressWithPagination"; OCheck; OLoop false (<[OCheck]>); ORead "k.GetPendingPerpetualOrderCount"; OWrite WOther "k.SetPendingPerpetualOrderCount"; OWrite WOther "k.storeService.OpenKVStore"; OWrite WOther "k.SetPendingPerpetualOrderCount"; OWrite WOther "k.perpetual.HandleOpenEstimation"; OCheck; OWrite WSigner "k.Keeper.bank.SendCoins"; OCheck]>);
-  mkOF "tradeshield" "CreateSpotOrder" "MsgCreateSpotOrder" "OwnerAddress" CA "" (<[OCheck; OWrite WSigner "k.amm.SwapByDenom"; OCheck; OCheck; ORead "k.GetPendingSpotOrderCount"; OWrite WOther "k.SetPendingSpotOrderCount"; OWrite WOther "k.storeService.OpenKVStore"; OWrite WOther "k.SetPendingSpotOrderCount"; OWrite WSigner "k.Keeper.bank.SendCoins"; OCheck]>);
-  mkOF "tradeshield" "ExecuteOrders" "MsgExecuteOrders" "Creator" CU "x/tradeshield/keeper/pending_spot_order.go:202: write k.bank.SendCoins while the owner of o1@x/tradeshield/keeper/msg_server_execute_orders.go:20 k.GetPendingSpotOrder (selected without the signer in its key) has not been compared with the signer | x/tradeshield/keeper/pending_perpetual_order.go:219: write k.bank.SendCoins while the owner of o2@x/tradeshield/keeper/msg_server_execute_orders.go:63 k.GetPendingPerpetualOrder (selected without the signer in its key) has not been compared with the signer" (<[OLoop true (<[OSelect KId "o1" "k.GetPendingSpotOrder at x/tradeshield/keeper/msg_server_execute_orders.go:20"; OCheck; ORead "k.GetAssetPriceFromDenomInToDenomOut"; OCheck; OCheck; OCheck; OWrite WObj "k.bank.SendCoins"; OCheck; OWrite WObj "k.amm.SwapByDenom"; OCheck; OWrite WOther "k.storeService.OpenKVStore"; ORead "k.GetAssetPriceFromDenomInToDenomOut"; OCheck; OCheck; OCheck; OWrite WObj "k.bank.SendCoins"; OCheck; OWrite WObj "k.amm.SwapByDenom"; OCheck; OWrite WOther "k.storeService.OpenKVStore"; ORead "k.GetAssetPriceFromDenomInToDenomOut"; OCheck; OCheck; OCheck; OWrite WObj "k.bank.SendCoins"; OCheck; OWrite WObj "k.amm.SwapByDenom"; OCheck; OWrite WOther "k.storeService.OpenKVStore"; OWrite WObj "k.amm.SwapByDenom"; OCheck; OWrite WOther "write"]>); OLoop true (<[OSelect KId "o2" "k.GetPendingPerpetualOrder at x/tradeshield/keeper/msg_server_execute_orders.go:63"; OCheck; ORead "k.perpetual.GetAssetPrice"; OCheck; OCheck; OCheck; OWrite WObj "k.bank.SendCoins"; OCheck; OWrite WObj "k.perpetual.Open"; OCheck; OWrite WOther "k.storeService.OpenKVStore"; OWrite WOther "write"]>)]>);
-  mkOF "tradeshield" "UpdateParams" "MsgUpdateParams" "Authority" CE "" (<[OCheck; OCheck; OWrite WOther "k.storeService.OpenKVStore"; OCheck; OCheck]>);
-  mkOF "tradeshield" "UpdatePerpetualOrder" "MsgUpdatePerpetualOrder" "OwnerAddress" CB "" (<[OSelect KId "o1" "k.GetPendingPerpetualOrder at x/tradeshield/keeper/msg_server_perpetual_order.go:137"; OCheck; OCompare "o1" "OwnerAddress"; ORead "k.perpetual.GetParams"; OCheck; OCheck; OCheck; OCheck; OWrite WOther "k.storeService.OpenKVStore"]>);
-  mkOF "tradeshield" "UpdateSpotOrder" "MsgUpdateSpotOrder" "OwnerAddress" CB "" (<[OSelect KId "o1" "k.GetPendingSpotOrder at x/tradeshield/keeper/msg_server_spot_order.go:61"; OCheck; OCompare "o1" "OwnerAddress"; OWrite WOther "k.storeService.OpenKVStore"]>)
-].
+(* gotrans failed on the current tree *)
+Definition handlers := gotrans_failed_on_the_current_tree_see_log.
